@@ -284,3 +284,10 @@ def known_match(line, out, msg, known):
             if k.get("id") == "K2":
                 return k
     return None
+
+
+def literal_ops(lit):
+    ob = hx(bytes(range(40)))
+    yield "cli absent %s %s" % (ob, enc(["--account", str(lit), "--interval", "0", "1", "from-bip39-seed", SEED]))
+    yield "cli absent %s %s" % (ob, enc(["--interval", str(lit), str(lit + 1), "from-bip39-seed", SEED]))
+    yield "cli absent %s %s" % (ob, enc(["--paranoia", "--interval", "0", str(min(lit, 30)), "from-bip39-seed", SEED]))
